@@ -17,13 +17,17 @@ SEMIRINGS = [("add", "mul", "real"), ("logaddexp", "add", "log")]
 VARS = [("a", 2), ("b", 3), ("c", 2), ("d", 2)]
 
 
-def gen_exprs(rng, n, sum_op, prod_op, carrier, max_leaves, wrappers):
+def gen_exprs(rng, n, sum_op, prod_op, carrier, max_leaves, wrappers, repeat=False):
+    """returns (prog, aliases): aliases maps an occurrence's leaf name to the name of the leaf whose ARRAY it shares
+    (the same funsor Tensor occurring more than once)"""
     from lang.prog import binary, cat, leaf, num, reduce_, slice_, subs, var
     out = []
     for _ in range(n):
         k = rng.randint(1, max_leaves)
         ops_ = []
         used_wrap = False
+        aliases = {}
+        plain = []       # (name, vs) of unwrapped leaves
         must_reduce = set()      # names introduced by a wrapper are always reduced (the derivative with respect to the
         #                          underlying leaf is then a plain function of the leaf's own inputs and the root's)
         for i in range(k):
@@ -32,6 +36,24 @@ def gen_exprs(rng, n, sum_op, prod_op, carrier, max_leaves, wrappers):
             vs = vs[:3]
             lf = leaf("f%d" % i, tuple(vs), (), carrier)
             e = lf
+            if repeat and plain and rng.random() < 0.5:
+                # another occurrence of an earlier leaf: the same tensor, as is or with one input renamed to a
+                # variable of the same size that it does not mention
+                src, svs = rng.choice(plain)
+                lf = leaf("f%d" % i, tuple(svs), (), carrier)
+                aliases["f%d" % i] = src
+                e = lf
+                # a tensor occurring more than once: its inputs are reduced, so that the derivative is a function of
+                # the tensor's own coordinates (and of root inputs it does not mention) with no name standing for both
+                must_reduce.update(n_ for n_, _ in svs)
+                others = [(n2, s2) for n2, s2 in VARS for n1, s1 in svs if s1 == s2 and n2 not in dict(svs)]
+                if svs and others and rng.random() < 0.6:
+                    n2, s2 = rng.choice(others)
+                    n1 = rng.choice([a for a, b in svs if b == s2])
+                    e = subs(lf, ((n1, var(n2, ("bint", s2))),))
+                    must_reduce.add(n2)
+                ops_.append(e)
+                continue
             if wrappers and vs and rng.random() < 0.4:
                 used_wrap = True
                 j = rng.randrange(len(vs))
@@ -39,8 +61,13 @@ def gen_exprs(rng, n, sum_op, prod_op, carrier, max_leaves, wrappers):
                 u = "u%d" % i                                   # the wrapped input gets a name used nowhere else
                 uvs = tuple((u, s_) if n_ == kk else (n_, s_) for n_, s_ in vs)
                 lf = leaf("f%d" % i, uvs, (), carrier)
-                w = rng.choice(["rename", "slice", "cat", "index"])
-                if w == "rename":
+                w = rng.choice(["rename", "slice", "cat", "index", "index_same"])
+                if w == "index_same":
+                    # the index tensor is over the SAME name (and size) as the input it replaces: x(i=perm[i])
+                    lf = leaf("f%d" % i, tuple(vs), (), carrier)
+                    e = subs(lf, ((kk, leaf("perm%d" % i, ((kk, size),), (), ("int", size))),))
+                    must_reduce.add(kk)
+                elif w == "rename":
                     e = subs(lf, ((u, var(kk, ("bint", size))),))
                     must_reduce.add(kk)
                 elif w == "slice" and size >= 2:
@@ -59,6 +86,8 @@ def gen_exprs(rng, n, sum_op, prod_op, carrier, max_leaves, wrappers):
                 else:
                     e = subs(lf, ((u, var(kk, ("bint", size))),))
                     must_reduce.add(kk)
+            else:
+                plain.append(("f%d" % i, vs))
             ops_.append(e)
         e = ops_[0]
         for o in ops_[1:]:
@@ -71,12 +100,13 @@ def gen_exprs(rng, n, sum_op, prod_op, carrier, max_leaves, wrappers):
         red = tuple(v for v in ins if rng.random() < 0.6 or v[0] in must_reduce)
         if red:
             e = reduce_(sum_op, e, red)
-        out.append(e)
+        out.append((e, tuple(sorted(aliases.items()))))
     return out
 
 
 def build_obligation(inst):
-    _, sr, prog, optimize = inst
+    _, sr, prog, optimize = inst[:4]
+    aliases = dict(inst[4]) if len(inst) > 4 else {}
 
     def ob(mk):
         import numpy as np
@@ -99,13 +129,19 @@ def build_obligation(inst):
         for name, l in lf.items():
             car = l[4]
             if isinstance(car, tuple):       # index tensors: a concrete permutation (injective index substitution)
-                leaves[name] = np.array([1, 0], dtype=np.int64)
+                leaves[name] = np.array({1: [0], 2: [1, 0], 3: [1, 2, 0]}[car[1]], dtype=np.int64)
+            elif name in aliases:
+                continue
             else:
                 leaves[name] = mk.array(name, leaf_shape(l), car)
+        for name, src in aliases.items():
+            leaves[name] = leaves[src]       # the very same array object: funsor sees one Tensor
         try:
-            with lazy:
+            with (reflect if optimize == "reflect" else lazy):
+                # under `lazy` substitutions into tensors are still performed at once; under `reflect` every
+                # constructor stays a term, so the tape sees Subs / Slice / Cat nodes as written
                 expr = build(prog, leaves)
-                if optimize:
+                if optimize is True:
                     expr = apply_optimizer(expr)
             fwd, bwd = forward_backward(sum_op, prod_op, expr)
         except (NotImplementedError, ValueError, AssertionError, KeyError) as e:
@@ -125,14 +161,30 @@ def build_obligation(inst):
         unit0 = C.UNIT[sr[0]]
         by_data = {(id(k.data), tuple(k.inputs)): (k, v) for k, v in bwd.items() if isinstance(k, Tensor)}
         cats = [n for n in _nodes(prog) if n[0] == "cat"]
-        for name, l in lf.items():
-            if isinstance(l[4], tuple):
-                continue
-            arr = leaves[name]
-            kk_ = (id(arr), tuple(k for k, _ in l[2]))
+        # the tape keys a tensor by (array, input names): a renaming of a tensor is performed at once, so a renamed
+        # occurrence is reported under its NEW names; occurrences with the same array and the same effective names
+        # are one key and their derivatives add up (product rule)
+        renames = {}
+        for n_ in _nodes(prog):
+            if optimize != "reflect" and n_[0] == "subs" and n_[1][0] == "leaf" and all(sv[0] == "var" for _, sv in n_[2]):
+                renames[n_[1][1]] = {k_: sv[1] for k_, sv in n_[2]}
+        def eff(name):
+            return tuple(renames.get(name, {}).get(k_, k_) for k_, _ in lf[name][2])
+        groups = {}
+        for name in lf:
+            if not isinstance(lf[name][4], tuple):
+                groups.setdefault((aliases.get(name, name), eff(name)), []).append(name)
+        sum2 = C.BINARY[sr[0]]
+        checked_keys = 0
+        for (canon, enames), occs in groups.items():
+            name = occs[0]
+            l = lf[name]
+            arr = leaves[canon]
+            kk_ = (id(arr), enames)
             if kk_ not in by_data:
                 # leaf not on the tape (e.g. consumed by an eager substitution): its adjoint is not reported
                 continue
+            checked_keys += 1
             key, adj = by_data[kk_]
             # Cat is additive: the other parts of a Cat containing this leaf do not contribute to its derivative
             zeroed = set()
@@ -142,7 +194,7 @@ def build_obligation(inst):
                     for pl in parts_leaves:
                         if name not in pl:
                             zeroed |= pl
-            lin = [(k, n) for k, n in l[2]]
+            lin = [(en, n) for en, (k, n) in zip(enames, l[2])]
             allnames = list(dict.fromkeys([k for k, _ in lin] + names))
             sizes = dict(lin)
             sizes.update({k: pin[k][1] for k in names})
@@ -156,14 +208,18 @@ def build_obligation(inst):
                 onehot = np.empty(leaf_shape(l), dtype=object)
                 onehot[...] = unit0
                 onehot[tuple(env[k] for k, _ in lin)] = unit1
-                lv = dict(leaves)
-                lv[name] = onehot
-                for zn in zeroed:
-                    zz = np.empty(leaf_shape(lf[zn]), dtype=object)
-                    zz[...] = unit0
-                    lv[zn] = zz
+                tot = None
+                for occ in occs:     # product rule over the occurrences of the same tensor
+                    lv = dict(leaves)
+                    lv[occ] = onehot
+                    for zn in zeroed:
+                        zz = np.empty(leaf_shape(lf[zn]), dtype=object)
+                        zz[...] = unit0
+                        lv[zn] = zz
+                    d_ = denote(prog, {k: env[k] for k in names}, lv)[()]
+                    tot = d_ if tot is None else sum2(tot, d_)
                 got.append(result_cells(adj, env)[()])
-                exp.append(denote(prog, {k: env[k] for k in names}, lv)[()])
+                exp.append(tot)
             pairs.append((got, exp))
         return pairs
     return ob
@@ -183,7 +239,7 @@ def worker(inst):
     from symx.symarray import use_logsumexp_spec
     use_logsumexp_spec()
     tier = os.environ.get("VERIF_TIER", "quick")
-    out = decide("%s/%s|opt=%s|%s" % (inst[1][0], inst[1][1], inst[3], show(inst[2])), build_obligation(inst), timeout_ms=6000 if tier == "quick" else 60000, twin=True)
+    out = decide("%s/%s|opt=%s|%s%s" % (inst[1][0], inst[1][1], inst[3], show(inst[2]), ("|same:%s" % dict(inst[4])) if len(inst) > 4 and inst[4] else ""), build_obligation(inst), timeout_ms=6000 if tier == "quick" else 60000, twin=True)
     out["prog"] = out["label"]
     return out
 
@@ -192,12 +248,14 @@ def instances(tier, seed):
     rng = random.Random(seed)
     out = []
     for sr in SEMIRINGS:
-        for wrappers in (False, True):
-            progs = gen_exprs(rng, 60 if tier == "quick" else 600, sr[0], sr[1], sr[2], 4 if tier == "quick" else 5, wrappers)
-            for p in progs:
-                out.append(("adj", sr, p, False))
+        for wrappers, repeat in ((False, False), (True, False), (False, True), (True, True)):
+            progs = gen_exprs(rng, (60 if not repeat else 40) if tier == "quick" else 600, sr[0], sr[1], sr[2], 4 if tier == "quick" else 5, wrappers, repeat)
+            for p, al in progs:
+                out.append(("adj", sr, p, False, al))
                 if rng.random() < 0.5:
-                    out.append(("adj", sr, p, True))
+                    out.append(("adj", sr, p, True, al))
+                if wrappers or repeat or rng.random() < 0.3:
+                    out.append(("adj", sr, p, "reflect", al))
     return out
 
 
@@ -205,10 +263,10 @@ def main():
     chk = Check("C11", "model_checking")
     insts = instances(chk.tier, chk.seed)
     chk.map("checks.c11", "worker", insts, chunksize=4)
-    chk.bounds = dict(leaves="1-4|5 (each occurring once)", variables=dict(VARS), semirings=[s[:2] for s in SEMIRINGS], optimizer="with and without apply_optimizer",
-                      wrappers="renaming, slice, Cat with a sibling leaf, injective index substitution (a concrete permutation)")
+    chk.bounds = dict(leaves="1-4|5 occurrences; the same tensor may occur several times (as is, or with an input renamed)", variables=dict(VARS), semirings=[s[:2] for s in SEMIRINGS], optimizer="built under lazy (with and without apply_optimizer) and under reflect",
+                      wrappers="renaming, slice, Cat with a sibling leaf, injective index substitution (a concrete permutation; over a fresh name and over the SAME name as the replaced input)")
     chk.assumptions = ["assume-guarantee cut: ops.logsumexp replaced by its specification; maxima of detached log-space arrays abstracted",
-                       "plate (product) reductions and their safe inverses are not covered", "the derivative oracle needs every leaf to occur exactly once (the generator guarantees it)"]
+                       "plate (product) reductions and their safe inverses are not covered", "repeated occurrences of one tensor are handled by the product rule (one one-hot substitution per occurrence, summed)"]
     chk.floor = 100
     chk.finish(rule="seeded sum-product expressions per semiring (x optimizer, x leaf wrappers); per instance the forward value and the adjoint of every leaf on the tape are decided; distinct = descriptor",
                trusted_base=["z3 5.1", "symx", "lang.denote (one-hot derivative oracle)"])
